@@ -6,7 +6,7 @@ from astlib import find_all, find_first, show, show_pat, quotes_in, tok_text, me
 from rules.common import ftrav, flat, flatp, has, same, xquotes
 
 EXPLANATION = (
-    "Static structural analysis of the parser's string splitting, the reducer and the code generators (syntax facts; a "
+    "Primary clause (R0): the string parser and reduce() are interpreted abstractly (rules/absint.py; nothing compiled or run) on strings generated from the value grammar and must give back exactly the generating pieces, in order. Static structural analysis of the parser's string splitting, the reducer and the code generators (syntax facts; a "
     "symbolic byte-offset evaluation of the splitting functions); nothing is executed. Decided clauses: (R1/R2) symbolic "
     "offset analysis of find_variable / find_foreign_key / find_component (+ helpers): the pieces (before, this, after) "
     "tile the input exactly - first piece starts at 0, last ends at the end, and the gaps are exactly the recognised "
@@ -594,7 +594,7 @@ def run(ctx):
 
 
 MANIFEST_ENTRY = {
-    "technique": "static analysis: symbolic byte-offset evaluation (linear-offset abstract domain over the syn tree) of the string-splitting functions for exact tiling and char-boundary safety; traversal-completeness and order checks of reducer and generators in canonical form (py/canon.py); abstract evaluation of the tuple-regrouping generator on 0..700 pieces (rules/absint.py); per-locale provenance check in generator closures",
-    "level_text": "Structural: the splitting functions are evaluated symbolically (no concrete string) to show the pieces tile the input with only delimiters in the gaps; reducer and generators are shown to keep every piece in order and to pair each arm with its own locale's data. Which delimiters pair up for a concrete text is not decided.",
+    "technique": "static analysis: abstract evaluation (rules/absint.py, finite universe generated from the value grammar) of the string parser ParsedValue::new and of reduce(), oracle = the pieces the string was generated from; symbolic byte-offset evaluation of the splitting functions (tiling, char boundaries); traversal-completeness and order checks of the generators in canonical form; abstract evaluation of the tuple-regrouping generator; per-locale provenance check in generator closures",
+    "level_text": "Structural + finite abstract evaluation: the parser and the reducer are interpreted on every string of a generated universe (literals incl. multibyte / lone delimiters, 3 variable spellings, components nested to depth 3) and must return exactly the generating pieces in order; the splitting functions are also evaluated symbolically for exact tiling; generators are shown to keep every piece in order. No crate is built or run.",
     "level_note": "Trusted: std str search APIs return boundaries; quote!/leptos ordering. Not decided: delimiter pairing choice, HTML rendering.",
 }
